@@ -28,7 +28,7 @@ def P(pid, level, **kw):
     PROPS[pid] = d
 
 
-P("C01", "proof", kani={"timeout": "600s", "compile_clause": True}, rac=["emit"],
+P("C01", "proof", native=True, kani={"timeout": "600s", "compile_clause": True}, rac=["emit"],
   unbounded="all operands, all 22 operators: spelling -> Combinator -> constructor -> emitted tokens == documented call",
   bounded="operator adjacency / chain length (Kani programs)",
   not_decided="left-to-right composition for chains outside the enumerated family; that parse_until applies the table (C14)")
@@ -80,10 +80,10 @@ P("C03", "model_checking", native=True, kani={"timeout": "1200s"},
   bounded="sync: profiles n<=3 d<=3 with 7 operator kinds rotating over positions (incl. deferred error operators), exact staged trace; async: same gate programs as C09, monotone step numbers in the trace",
   not_decided="OS-thread interleavings and tokio task schedules (Kani has no thread support)")
 
-P("C10", "model_checking", kani={"timeout": "600s", "compile_clause": True}, rac=["linear"],
+P("C10", "model_checking", native=True, kani={"timeout": "600s", "compile_clause": True}, rac=["linear"],
   bounded="every operator with logging callbacks: exact callback trace == documented chain's trace; move-only Tok programs: live()==0 after the result is dropped; block operands inside wrappers evaluated once",
   not_decided="programs outside the enumerated family")
-P("C11", "proof", kani={"timeout": "600s", "compile_clause": True}, rac=["emit"],
+P("C11", "proof", native=True, kani={"timeout": "600s", "compile_clause": True}, rac=["emit"],
   unbounded="which operators hoist (is_replaceable, incl. the provided method used by ErrExpr/InitialExpr, R14), operands exposed and restored in order (inner_exprs / replace_inner_exprs); separate_block_expr itself for its three instantiations (R13 desugaring of enumerate/map/fold into a while loop with an inductive invariant): ALL block operands of one action are defined, once, in operand order, each under the name of (branch, action, operand index), and the operator is handed back over the replaced operands; generate_def_and_step_streams appends them after the earlier definitions",
   bounded="placement of the definition stream relative to the steps: exact capture/callback trace for all hoisting operators rotating over positions, n<=3, d<=3, nested wrappers, both operands of fold/try_fold")
 
